@@ -198,9 +198,27 @@ static void case_pls(vh_ctx *c)
   ldm *X = degenerate(c, n, p, r, &kind, &pert), *T;
   matrix *mx = matrix_of_ldm(X), *my;
   PLSMODEL *m;
-  static const char *yk[] = { "yconst", "ytwovalued", "ylinear", "yinteger" };
+  static const char *yk[] = { "yconst", "ytwovalued", "ylinear", "yinteger", "yorthogonal-dominant" };
+  /* two-level factorial design with a dominant response that is EXACTLY orthogonal to every x variable and to the constant
+     (an interaction term), placed at a random response index, next to a response that does depend on X: the start column of
+     NIPALS carries no covariance with X although the block does */
+  if (vh_coin(c, 0.12)) {
+    size_t orthcol, infocol;
+    ykind = 4; n = 8; p = 3; ny = (size_t)vh_int(c, 2, 3); r = 3; mn = 3;
+    DelMatrix(&mx); ldm_free(X);
+    X = ldm_new(n, p);
+    for (i = 0; i < n; i++) for (j = 0; j < p; j++) LM(X, i, j) = ((i >> j) & 1) ? 1 : -1;
+    mx = matrix_of_ldm(X); kind = 0; pert = 0;
+    orthcol = (size_t)vh_int(c, 0, (long)ny - 1); infocol = (orthcol + 1 + (size_t)vh_int(c, 0, (long)ny - 2)) % ny;
+    NewMatrix(&my, n, ny);
+    for (j = 0; j < ny; j++) for (i = 0; i < n; i++) {
+      double x1 = mx->data[i][0], x2 = mx->data[i][1], x3 = mx->data[i][2];
+      my->data[i][j] = j == orthcol ? 10.0 + 5.0 * x1 * x2 : j == infocol ? 1.0 + x1 : 2.0 + x2 - x3;
+    }
+    if (xs > 0) xs = 0;          /* keep the design exactly orthogonal */
+  } else
   NewMatrix(&my, n, ny);
-  for (j = 0; j < ny; j++) {
+  for (j = 0; j < ny && ykind != 4; j++) {
     double v0 = (double)vh_int(c, -3, 3), v1 = v0 + (double)vh_int(c, 1, 4);
     for (i = 0; i < n; i++) {
       if (ykind == 0) my->data[i][j] = v0;
